@@ -178,7 +178,7 @@ def check_traces(ctx, items, what: str):
         return 0
     path = ctx.work / f"traces-{what}.json"
     path.write_text(json.dumps([t for t, _, _, _ in items]))
-    r = ctx.tlc("Trace_OutputVariable", workers=1, env={"VERIF_TRACES": str(path)}, timeout=1800)
+    r = ctx.tlc("Trace_OutputVariable", workers=8, env={"VERIF_TRACES": str(path)}, timeout=1800)
     ctx.expect_holds(r, "Trace_OutputVariable")
     by_id = {t["id"]: (t, evs, order, w) for t, evs, order, w in items}
     seen = set()
